@@ -114,6 +114,12 @@ class DictDecoder:
         Returns:
             An instance of the class type representing the parsed content.
         """
+        if not isinstance(data, dict):
+            raise ParserError(
+                f"Invalid value for {clazz.__qualname__}: "
+                f"expected object, got {type(data).__name__}"
+            )
+
         if self.is_generic(data.keys(), self.context.class_type.derived_keys):
             return self.bind_derived_dataclass(data, clazz)
 
@@ -241,6 +247,12 @@ class DictDecoder:
         """
         # xs:anyAttributes get it out of the way, it's the mapping exception!
         if var.is_attributes:
+            if not isinstance(value, dict):
+                raise ParserError(
+                    f"Failed to bind '{value}' "
+                    f"to {meta.clazz.__qualname__}.{var.name} field"
+                )
+
             return dict(value)
 
         # Repeating element, recursively bind the values
@@ -300,7 +312,14 @@ class DictDecoder:
             # Tokens of an immutable model are encoded as a tuple
             value = list(value)
 
-        value = converter.serialize(value)
+        try:
+            value = converter.serialize(value)
+        except TypeError:
+            # e.g. null inside a list of tokens
+            raise ParserError(
+                f"Failed to bind '{value}' "
+                f"to {meta.clazz.__qualname__}.{var.name} field"
+            )
 
         # Convert value according to the field types
         return ParserUtils.parse_var(
@@ -332,7 +351,11 @@ class DictDecoder:
             # xs:anyType element, check all meta classes
             return self.bind_best_dataclass(data, meta.element_types)
 
-        assert var.clazz is not None
+        if var.clazz is None:
+            raise ParserError(
+                f"Failed to bind object with properties({list(data.keys())}) "
+                f"to {meta.clazz.__qualname__}.{var.name} field"
+            )
 
         subclasses = set(self.context.get_subclasses(var.clazz))
         if subclasses:
